@@ -35,10 +35,15 @@ CLAIMED = {
         "text": "Seeded sampling of 2-5 statement chains x provider in {none, SimProvider, Dummy} x both analyzers; the script's column paths must equal the composition of the per-statement pairs the taps reported, the session must follow a register/lookup/deregister model statement by statement, wildcard expansion from session metadata must be exact, and attribution never leaves a statement's candidate set. Shapes the property does not determine (unresolved columns with 0 or >=2 defining candidates, cyclic column graphs, re-definition of a table) are skipped and counted.",
         "note": "History clause + collaborator only (deterministic in script and metadata, said plainly in DESIGN.md); per-statement pairs are taken from the library's own statement holders through the tap, so a defect inside ONE statement's analysis is invisible here (that is C02, not claimed); trusted: sim/props/c04.py, sim/gen_sql.py.",
     },
+    "C14": {
+        "design_ref": "DESIGN.md 4.6",
+        "technique": "deterministic simulation over the import-time / environment / thread seams: zygotes imported with or without SQLLINEAGE_DEFAULT_SCHEMA, baton-scheduled threads analysing under different scoped defaults with line-level pre-emption in config.py and core/models.py, operator environment flips, per-thread histories S1 -> S2 -> none; reference = qualified rendering in a clean process",
+        "text": "A fixed template set covering every Table construction site is analysed under every process lifetime x mechanism (complete sweep, single thread) and under seeded thread schedules / histories / environment flips (sampling); each analysis must equal the S-qualified rendering analysed with no default in a clean process. The input dimension (programs) is deliberately not searched.",
+        "note": "Fixed committed templates (sim/templates_c14.py); qualifier-fallback site excluded (invalid SQL); environment flips only while analyses run under scoped overrides; trusted: sim/props/c14.py, sim/canon.py.",
+    },
 }
 
 PLANNED = {
-    "C14": "claimed in DESIGN.md 4.6; check not built yet in this commit (in progress)",
     "C17": "claimed in DESIGN.md 4.7; check not built yet in this commit (in progress)",
 }
 
